@@ -16,6 +16,10 @@ func emit(c *vh.Ctx, o *outcome, synced map[string]bool, debug bool) {
 	name := o.cl.name
 	key := o.sc.kind + "/" + name
 	completed := r.ClientErr == nil
+	if o.sc.kind == "curve12" && r.Trace.Group == 0 && len(r.Trace.Sent) > 0 {
+		// the server ended up with a non-ECDHE suite (the hello has no usable group): no ServerKeyExchange, the forced curve was never sent
+		o.unoff = false
+	}
 
 	// ---- (c) the property's own oracle, independent of the model ----
 	input := map[string]any{"parrot": name, "kind": o.sc.kind, "variant": o.sc.variant, "forced": o.val, "server_max_version": o.sc.maxVers,
